@@ -709,6 +709,25 @@ impl Context {
         code: &'a str,
         code_source: CodeSource,
     ) -> Result<(Vec<typed_ast::Statement<'a>>, InterpreterResult)> {
+        // Modules that were imported by an input that fails later on (in any stage) have not
+        // been loaded. Forget about them, so that a later `use` imports them again.
+        let imported_modules_old = self.resolver.imported_modules.clone();
+
+        let result = self.interpret_with_settings_impl(settings, code, code_source);
+
+        if result.is_err() {
+            self.resolver.imported_modules = imported_modules_old;
+        }
+
+        result
+    }
+
+    fn interpret_with_settings_impl<'a>(
+        &mut self,
+        settings: &mut InterpreterSettings,
+        code: &'a str,
+        code_source: CodeSource,
+    ) -> Result<(Vec<typed_ast::Statement<'a>>, InterpreterResult)> {
         let statements = self
             .resolver
             .resolve(code, code_source.clone())
